@@ -571,11 +571,8 @@ func (m *Manager) HandleStreamData(streamID uint64, flags uint8, data []byte) er
 		return fmt.Errorf("unknown stream %d", streamID)
 	}
 
-	// Handle FIN flags
-	if flags&protocol.FlagFinWrite != 0 {
-		stream.HandleRemoteFinWrite()
-	}
-
+	// Deliver data carried by this frame before signalling end-of-write:
+	// a reader woken by the FIN must find the data already buffered.
 	if len(data) > 0 {
 		if err := stream.PushData(data); err != nil {
 			return err
@@ -584,6 +581,11 @@ func (m *Manager) HandleStreamData(streamID uint64, flags uint8, data []byte) er
 		if m.onStreamData != nil {
 			m.onStreamData(stream, data)
 		}
+	}
+
+	// Handle FIN flags
+	if flags&protocol.FlagFinWrite != 0 {
+		stream.HandleRemoteFinWrite()
 	}
 
 	return nil
